@@ -251,3 +251,7 @@ META = {
     'technique': 'static analysis: statement CFG with exception edges, dominators, reachability from exception edges, path enumeration of finalisation order',
     'design_ref': 'DESIGN.md section 5, C20',
 }
+
+
+from . import shared as _shared
+_shared.register('C20', 'C20')
